@@ -822,6 +822,10 @@ func lexIdent(l *lexer) stateFn {
 		l.backup()
 	case '$':
 		itemType = itemDollarIdent
+		// a variable name begins with a letter or an underscore.
+		if r := l.peek(); r != '_' && !unicode.IsLetter(r) {
+			return l.errorf("unexpected beginning to variable name: %#U", r)
+		}
 	case '/':
 		itemType = itemCommandEnd
 	case '\\':
